@@ -780,11 +780,21 @@ func (env *Env) elabOpaque(d *Define, n ECall) (string, SType, error) {
 		if len(pnames) == 0 {
 			ax = fmt.Sprintf("(= %s %s)", app, body)
 		}
-		// global: belongs to no block (it must survive ancestor pruning)
-		sb := e.curBlock
-		e.curBlock = nil
-		e.assume(ax)
-		e.curBlock = sb
+		revealed := !d.Hidden
+		if d.Hidden && e.spec != nil {
+			for _, rn := range e.spec.Reveals {
+				if rn.Name == d.Name && e.pass.Active(rn.Tags) {
+					revealed = true
+				}
+			}
+		}
+		if revealed {
+			// global: belongs to no block (it must survive ancestor pruning)
+			sb := e.curBlock
+			e.curBlock = nil
+			e.assume(ax)
+			e.curBlock = sb
+		}
 	} else {
 		e.fresh = saveFresh
 	}
